@@ -219,24 +219,29 @@ def run(check, an: Analysis):
         check.instance('S', '%s.__init__' % cls_qn.rsplit('.', 1)[-1], ok and n > 0,
                        where_fn(init.fn), 'enqueue, register the inverse trigger as callback, '
                        'trigger the own side at once (%d normal paths)' % n, analysed=n)
-        cancel = an.callee(cls_qn, 'cancel')
-        ok, seen = True, set()
-        for path in an.paths(cancel):
-            if not path.normal:
+        for recv_qn in [cls_qn] + an.p.subclasses(cls_qn):
+            # (every request class: one that brings a cancel of its own is judged like these)
+            cancel = an.callee(recv_qn, 'cancel')
+            if recv_qn != cls_qn and cancel.fn is an.callee(cls_qn, 'cancel').fn:
                 continue
-            atoms = rules.path_atoms(path)
-            fired = atoms.get(('truth', 'self.triggered'))
-            removed = [rules.value_text(path, i, e.node.args[0])
-                       for i, e in enumerate(path.events)
-                       if e.kind == 'call' and e.depth == 0 and isinstance(e.node, ast.Call)
-                       and e.node.args and rules.value_text(path, i, e.node.func)
-                       == 'self.resource.%s_queue.remove' % own]
-            seen.add(fired)
-            ok &= (removed == ['self']) if fired is False else (
-                not removed and fired is True)
-        check.instance('S', '%s.cancel' % cls_qn.rsplit('.', 1)[-1],
-                       ok and seen == {True, False}, where_fn(cancel.fn),
-                       'a request is taken out of its queue iff it was not triggered yet')
+            ok, seen = True, set()
+            for path in an.paths(cancel):
+                if not path.normal:
+                    continue
+                atoms = rules.path_atoms(path)
+                fired = atoms.get(('truth', 'self.triggered'))
+                removed = [rules.value_text(path, i, e.node.args[0])
+                           for i, e in enumerate(path.events)
+                           if e.kind == 'call' and e.depth == 0 and isinstance(e.node, ast.Call)
+                           and e.node.args and rules.value_text(path, i, e.node.func)
+                           == 'self.resource.%s_queue.remove' % own]
+                seen.add(fired)
+                ok &= (removed == ['self']) if fired is False else (
+                    not removed and fired is True)
+            check.instance('S', '%s.cancel' % recv_qn.rsplit('.', 1)[-1],
+                           ok and seen == {True, False}, where_fn(cancel.fn),
+                           'a request is taken out of its queue iff it was not triggered yet, '
+                           'and it is this very request that is taken out (`remove(self)`)')
     base_exit = an.callee('usim.py.resources.base.BaseRequest', '__exit__')
     # the base class itself is abstract (cancel raises): judged for the concrete requests
     bpaths = [p for recv in (PUT, GET) for p in an.paths(Callee(base_exit.fn, recv))
@@ -436,6 +441,7 @@ def run(check, an: Analysis):
     # the victim learns of its eviction when it is resumed next: a pending interrupt wins
     # over whatever else ended its wait (rule shared with C18)
     c18.check_interrupt_wins(check, an, 'Q')
+    c18.check_interrupt_never_refused(check, an, 'Q')
     pre_cls = an.method('usim.py.resources.resource.Preempted', '__init__')
     args = [a.arg for a in pre_cls.node.args.args[1:]]
     check.instance('Q', 'Preempted', args == ['by', 'usage_since', 'resource'],
